@@ -266,6 +266,7 @@ func (P *Prog) verifyFunction(fn *ssa.Function, safetyTags []string) (res *FuncR
 	// vacuity covers
 	res.Covers = append(res.Covers, &Obligation{Name: res.Fn + "/cover-requires", Fn: res.Fn, Kind: "cover", PC: pc0, Goal: False, Desc: "preconditions are satisfiable"})
 	res.Covers = append(res.Covers, &Obligation{Name: res.Fn + "/cover-return", Fn: res.Fn, Kind: "cover", PC: outpc, Goal: False, Desc: "some return is reachable"})
+	res.Covers = append(res.Covers, ex.covers...)
 	res.Obls = ex.obls
 	for _, o := range ex.obls {
 		oblCtx[o] = oblContext{ex, fr, ex.cands}
